@@ -820,6 +820,25 @@ for field in ("process_id", "process_create_time"):
     if not m or m.group(1) not in misc_bits:
         die("misc_accessors!: the guard of %s is not recognised" % field)
     consts.append(("GEN_MISC_BIT_%s" % field, misc_bits[m.group(1)]))
+# MinidumpBreakpadInfo::read / MinidumpMiscInfo::read: the stream must hold the whole (smallest) structure
+def u32_struct_size(name):
+    mm = re.search(r"pub struct %s \{(.*?)\}" % name, fmt_src, re.S)
+    if not mm:
+        die("format.rs: struct %s not found" % name)
+    fields = [f.strip() for f in re.sub(r"//[^\n]*", "", mm.group(1)).split(",") if f.strip()]
+    for f in fields:
+        if not re.match(r"^pub \w+: u32$", f):
+            die("format.rs: field %r of %s is not a u32" % (f, name))
+    return 4 * len(fields)
+
+
+if "letraw:md::MINIDUMP_BREAKPAD_INFO=bytes.pread_with(0,endian).or(Err(Error::StreamReadFailure))?;" not in nows:
+    die("MinidumpBreakpadInfo::read no longer reads one MINIDUMP_BREAKPAD_INFO at offset 0")
+if ("ifbytes.len()>=<$t>::size_with(&endian){returnOk(MinidumpMiscInfo{raw:RawMiscInfo::$variant(bytes.pread_with(0,endian).or(Err(Error::StreamReadFailure))?),});}" not in nows
+        or "(md::MINIDUMP_MISC_INFO_2,MiscInfo2),(md::MINIDUMP_MISC_INFO,MiscInfo),);Err(Error::StreamReadFailure)}" not in nows):
+    die("MinidumpMiscInfo::read: the size ladder ending in MINIDUMP_MISC_INFO is not recognised")
+consts.append(("GEN_BREAKPAD_INFO_SIZE", u32_struct_size("MINIDUMP_BREAKPAD_INFO")))
+consts.append(("GEN_MISC_INFO_SIZE", u32_struct_size("MINIDUMP_MISC_INFO")))
 # MinidumpContext::read: the architectures that have a context reader
 ctx_src = open(os.path.join(repo, "minidump/src/context.rs")).read()
 i = ctx_src.find("match md::ProcessorArchitecture::from_u16(system_info.raw.processor_architecture) {")
